@@ -10,6 +10,7 @@ UNITS = [(lambda c: (lambda: S.u_fit(c)))(c) for c in cfgs]
 UNITS = [lambda: S.u_voronoi_update(), lambda: S.u_voronoi_update(with_y=True)] + UNITS
 UNITS += [lambda: S.u_views(C('VoronoiFPS', 'sample')), lambda: S.u_step_functional(C('VoronoiFPS', 'sample')), lambda: S.u_continue_frame(C('VoronoiFPS', 'sample'))]
 RT = True
-TRUSTED = ["Lean lemma voronoi_prune: ||s-l||^2/4 >= ||x-s||^2 implies ||x-l||^2 >= ||x-s||^2 (used as an axiom of the vector layer)",
+TRUSTED = ["Lean theorem voronoi_prune (lemmas/lean/Lemmas.lean, machine-checked by Lean 4 + Mathlib): ||s-l||^2/4 >= ||x-s||^2 implies ||x-l||^2 >= ||x-s||^2 (used as an axiom of the vector layer)",
            "time.time() is any real: the calibrated switching point full_fraction is havocked in [0,1], so every outcome of the timing is covered",
            "VoronoiFPS and plain FPS refine the same specification (distance table = true minimum distance; pick = first argmax of the table); equality of the two selection sequences is the consequence (np.argmax deterministic), ties within rounding are bounded only"]
+LEAN_LEMMAS = "lemmas/lean/Lemmas.lean"
